@@ -144,6 +144,9 @@ def build(reg):
         ensures=clauses + ["ghost.n_completions <= old(ghost.n_completions) + 1", "ghost.n_sent == old(ghost.n_sent)"],
         raises={"ProtocolError": "not (%s)" % pending},
         raises_ensures={"ProtocolError": ["ghost.n_completions == old(ghost.n_completions)"]}, **common)
+    from . import c04_requests
+    W.install_message_models(reg)
+    c04_requests.build_requests(reg, common)
 
 
 def _as_future(ex, state, args):
